@@ -555,23 +555,26 @@ Definition p_braces (t : list Z) : option (nat * option nat * list Z) :=
 Definition is_quant_char (c : Z) : bool :=
   (c =? 42) || (c =? 43) || (c =? 63) || (c =? 123).
 
+(* a quantifier has been read: the atom must not match the empty string
+   and no second quantifier (or lazy/possessive mark) may follow *)
+Definition q_finish (a q : sre) (t1 : list Z) : option (sre * list Z) :=
+  if s_can_empty a then None
+  else match t1 with
+       | c :: _ => if is_quant_char c then None else Some (q, t1)
+       | [] => Some (q, t1)
+       end.
+
 (* optional quantifier after the atom a *)
 Definition p_quant (a : sre) (t : list Z) : option (sre * list Z) :=
-  let finish (q : sre) (t1 : list Z) : option (sre * list Z) :=
-    if s_can_empty a then None
-    else match t1 with
-         | c :: _ => if is_quant_char c then None else Some (q, t1)
-         | [] => Some (q, t1)
-         end in
   match t with
   | [] => Some (a, t)
   | c :: t1 =>
-      if c =? 42 then finish (SStar a) t1
-      else if c =? 43 then finish (SPlus a) t1
-      else if c =? 63 then finish (SOpt a) t1
+      if c =? 42 then q_finish a (SStar a) t1
+      else if c =? 43 then q_finish a (SPlus a) t1
+      else if c =? 63 then q_finish a (SOpt a) t1
       else if c =? 123 then
         match p_braces t1 with
-        | Some (lo, hi, t2) => finish (SRep a lo hi) t2
+        | Some (lo, hi, t2) => q_finish a (SRep a lo hi) t2
         | None => None
         end
       else Some (a, t)
